@@ -64,6 +64,8 @@ def execute(case):
             rs.append(outcome(geometry.intervals_overlap, b, a, **kw))
         elif k in ("time", "freq"):
             g1, g2 = _geom(case["g1"], tu, case.get("prov", "fresh")), _geom(case["g2"], tu, case.get("prov", "fresh"))
+            if case["g1"] == case["g2"] and TIME_UNITS.index(tu) == 1:
+                g2 = g1          # a geometry compared with ITSELF (the very same object, as in a pairwise loop): same answer as with an equal copy
             fn = geometry.have_temporal_overlap if k == "time" else geometry.have_frequency_overlap
             kw = _thr(case, tu if k == "time" else FREQ_UNIT)
             r.append(outcome(fn, g1, g2, **kw))
